@@ -392,7 +392,8 @@ def run(chk: common.Check):
               "(26 directions x boundary distances x element mixes, clusters with negative / multiple-of-box coordinates, sliding disulfide); "
               "float cell index validated monotone + adjacent on the coordinate grid (exhaustive in the thorough tier); "
               "search: independent O(n^2) rule on the same sets and on real structures in rigid poses; flag life-cycle model vs the titration flags "
-              "of all groups of real runs, bridged cysteines named in --titrate_only. distinct = (size, element multiset)"),
+              "of all groups of real runs, bridged cysteines named in --titrate_only. distinct = (size, element multiset)"
+              " Added in rounds 4-6: atoms on top of each other, bridged cysteines named in --titrate_only, S / Se pairs in both atom orders, bridged cysteines in the charge curves, the flag life-cycle model vs all groups of real runs."),
         assumptions=["theorem over R with cell = floor(x/box); for the binary64 cell index the two needed facts (monotone, adjacent within reach) are "
                      "validated on the 0.001 A coordinate grid, not proved",
                      "element symbols among the periodic-table symbols known to propka (symmetry of the special-distance key by finite computation)",
